@@ -98,7 +98,17 @@ def shape_class(bt: bool, ipv8: bool, own_overlay: bool) -> str:
 
 
 def is_null_address(addr) -> bool:  # noqa: ANN001
-    return addr[0] == "0.0.0.0" and addr[1] == 0
+    """0.0.0.0:0, also in its IPv4-mapped IPv6 spelling (on the exit's dual-stack "::" socket that IS 0.0.0.0:0)."""
+    if addr[1] != 0:
+        return False
+    if addr[0] == "0.0.0.0":
+        return True
+    try:
+        import ipaddress  # noqa: PLC0415
+        ip = ipaddress.ip_address(addr[0])
+    except ValueError:
+        return False
+    return ip.version == 6 and ip.ipv4_mapped is not None and ip.ipv4_mapped.is_unspecified
 
 
 # --- a complete bencode recogniser (only used to certify well-formed DHT samples) ------------------------------------
